@@ -161,7 +161,10 @@ func (ucr *UnsignedChunkReader) extractChunkSize() (int64, error) {
 	if err != nil {
 		return 0, errMalformedEncoding
 	}
-	line = strings.TrimSpace(line)
+	if !strings.HasSuffix(line, "\r\n") {
+		return 0, errMalformedEncoding
+	}
+	line = line[:len(line)-2]
 
 	chunkSize, err := strconv.ParseInt(line, 16, 64)
 	if err != nil || chunkSize < 0 {
